@@ -467,7 +467,7 @@ Proof.
     cbn [bind_pid dyn_spec violations res_of] in *.
     unfold unsubscribe_dyn, unsubscribe_rules, size_rules, check_size_spec in *.
     cbn [u_pid u_filters u_up] in *. split_and. in_cases; try ups_done.
-    2:{ eapply flat_map_holes; [|eassumption|eassumption]. intros x Hx. now apply filter_dyn_unsub_rules. }
+    2:{ eapply flat_map_holes; [|eassumption|eassumption]. intros x Hx. now apply (filter_dyn_unsub_rules st). }
     all: finish.
   - (* PINGREQ *) destruct Hin.
   - (* DISCONNECT *)
@@ -483,4 +483,157 @@ Proof.
     unfold auth_dyn, auth_rules, size_rules, check_size_spec, is_none in *. split_and.
     in_cases; try ups_done; finish.
     destruct (au_method p); discriminate.
+Qed.
+
+Theorem sound_conforms : forall st co r p id,
+  qos_repr p -> spec_remaining (bind_pid p id) r < 4294967296 ->
+  existsb (fun rl => existsb (rule_eqb rl) known_holes) (violations st co r (bind_pid p id)) = false ->
+  validate_outbound p = Ok tt ->
+  validate_outbound_internal (Some st) co r (bind_pid p id) = Ok tt ->
+  conforms st co r (bind_pid p id) = true.
+Proof.
+  intros st co r p id Hq Hsm Hk Hs Hd. unfold conforms.
+  pose proof (sound_rules st co r p id Hq Hsm Hs Hd) as H.
+  destruct (violations st co r (bind_pid p id)) as [|rl l]; [reflexivity|]. exfalso.
+  specialize (H rl (or_introl eq_refl)). cbn [existsb] in Hk. apply orb_false_iff in Hk as [Hk _].
+  cbn in H. destruct H as [<-|[<-|[<-|[<-|[]]]]]; cbn in Hk; discriminate.
+Qed.
+
+(* ================= completeness ================= *)
+
+(* the packet id of a submitted packet is unset (the field is pub(crate)) *)
+Definition submitted (p : packet) : Prop :=
+  match p with
+  | Publish x => pub_pid x = 0
+  | Subscribe s => s_pid s = 0
+  | Unsubscribe u => u_pid u = 0
+  | _ => True
+  end.
+
+(* known over-strict behaviour: an UNSUBSCRIBE filter with a wildcard / of shared form is rejected when
+   the server announced that it does not support wildcard / shared SUBSCRIPTIONS *)
+Definition unsub_overstrict (st : settings) (p : packet) : bool :=
+  match p with
+  | Unsubscribe u =>
+      existsb (fun f => (filter_has_wildcard f && negb (st_wildcard_subscriptions_available st)) ||
+                        (spec_shared_filter f && negb (st_shared_subscriptions_available st))) (u_filters u)
+  | _ => false
+  end.
+
+Lemma req_nil_inv R c : req R c = [] -> c = true.
+Proof. destruct c; [reflexivity|discriminate]. Qed.
+
+Ltac nil_facts :=
+  repeat match goal with
+  | H : _ ++ _ = [] |- _ => apply app_eq_nil in H as [? ?]
+  | H : req _ _ = [] |- _ => apply req_nil_inv in H
+  | H : ups_rules _ = [] |- _ => apply ups_rules_ok in H
+  end.
+
+Lemma flat_map_nil {A} (f : A -> list rule) l : flat_map f l = [] -> forall x, In x l -> f x = [].
+Proof.
+  induction l as [|a l IH]; cbn; [tauto|]. intros H x [<-|Hx]; apply app_eq_nil in H as [H1 H2]; auto.
+Qed.
+
+Lemma qos_rule_inv maxq qos : (qos <=? maxq) = true -> qos_dyn maxq qos = true.
+Proof.
+  unfold qos_dyn. intros H. destruct (maxq =? 0) eqn:E0; [lia|].
+  destruct (maxq =? 1) eqn:E1; [|reflexivity]. destruct (qos =? 2) eqn:E2; cbn; [lia|reflexivity].
+Qed.
+
+Ltac conj_goal := repeat match goal with |- (_ && _) = true => apply andb_true_iff; split end.
+
+Ltac ack_complete Hv :=
+  cbn [violations res_of] in Hv; unfold ack_rules, size_rules in Hv; nil_facts;
+  rewrite is_ok_dynamic;
+  [ cbn [static_spec dyn_spec]; split; [unfold ack_static | unfold ack_dyn, check_size_spec]; conj_goal; assumption
+  | intros _; split; [reflexivity|split; [rewrite spec_remaining_res; unfold VLI_MAX in *; cbn [res_of] in *; lia|exact I]] ].
+
+Theorem complete_rules : forall st co r p id,
+  submitted p -> unsub_overstrict st p = false ->
+  violations st co r (bind_pid p id) = [] ->
+  validate_outbound p = Ok tt /\ validate_outbound_internal (Some st) co r (bind_pid p id) = Ok tt.
+Proof.
+  intros st co r p id Hsub Hov Hv.
+  assert (Hv' : violations st co (res_of (bind_pid p id) r) (bind_pid p id) = []).
+  { rewrite <- Hv. destruct p; cbn [bind_pid violations res_of]; try reflexivity. destruct (pub_qos p =? 0); reflexivity. }
+  clear Hv. rename Hv' into Hv.
+  rewrite !is_ok_tt, is_ok_static.
+  destruct p; cbn [bind_pid violations] in Hv; try discriminate Hv.
+  - (* CONNECT *)
+    split; [|reflexivity]. cbn [static_spec]. unfold connect_rules, connect_static, auth_data_ok, nz_ok in *.
+    destruct (con_will p) as [w|]; nil_facts; split_and; [unfold will_static|]; conj_goal; try assumption; try reflexivity.
+    now apply spec_topic_str_ok.
+  - (* PUBLISH *)
+    assert (Hf : publish_rules st r (if pub_qos p =? 0 then p else
+                   {| pub_pid := id; pub_topic := pub_topic p; pub_qos := pub_qos p; pub_dup := pub_dup p;
+                      pub_retain := pub_retain p; pub_payload := pub_payload p; pub_pfi := pub_pfi p;
+                      pub_mei := pub_mei p; pub_alias := pub_alias p; pub_response_topic := pub_response_topic p;
+                      pub_correlation := pub_correlation p; pub_subids := pub_subids p;
+                      pub_content_type := pub_content_type p; pub_up := pub_up p |}) = [] /\
+                 size_rules st (bind_pid (Publish p) id) r = []).
+    { cbn [bind_pid]. destruct (pub_qos p =? 0); cbn [violations res_of] in Hv; apply app_eq_nil in Hv; exact Hv. }
+    clear Hv. destruct Hf as [Hr Hz]. cbn [submitted] in Hsub.
+    assert (Hsubids : pub_subids p = None).
+    { unfold publish_rules in Hr. destruct (pub_qos p =? 0); cbn [pub_subids] in Hr; nil_facts; destruct (pub_subids p); try discriminate; reflexivity. }
+    unfold size_rules in Hz. nil_facts.
+    rewrite is_ok_dynamic.
+    2:{ intros _. split; [|split].
+        - cbn. destruct (pub_qos p =? 0); cbn; now rewrite Hsubids.
+        - rewrite spec_remaining_res. unfold VLI_MAX in *. lia.
+        - cbn. destruct (pub_qos p =? 0); exact I. }
+    cbn [bind_pid] in *. unfold publish_rules in Hr.
+    destruct (pub_qos p =? 0) eqn:Eq; cbn [static_spec dyn_spec] in *;
+    cbn [pub_pid pub_topic pub_qos pub_dup pub_retain pub_payload pub_pfi pub_mei pub_alias pub_response_topic
+         pub_correlation pub_subids pub_content_type pub_up] in *; nil_facts;
+    (split; [unfold publish_static, alias_nz, is_none, otopic_ok | unfold publish_dyn, check_size_spec, pid_dyn]);
+    cbn [pub_pid pub_topic pub_qos pub_dup pub_retain pub_payload pub_pfi pub_mei pub_alias pub_response_topic
+         pub_correlation pub_subids pub_content_type pub_up];
+    conj_goal; try assumption; try (now apply qos_rule_inv); try (rewrite Hsub; reflexivity).
+    + rewrite Eq. cbn. now rewrite andb_false_r.
+    + match goal with H : (_ || negb (id =? 0)) = true |- _ => rewrite Eq in H; cbn in H; rewrite negb_true_iff in H; rewrite H end.
+      reflexivity.
+  - (* PUBACK *) ack_complete Hv.
+  - (* PUBREC *) ack_complete Hv.
+  - (* PUBREL *) ack_complete Hv.
+  - (* PUBCOMP *) ack_complete Hv.
+  - (* SUBSCRIBE *)
+    cbn [violations res_of] in Hv. unfold subscribe_rules, size_rules in Hv. cbn [s_pid s_subs s_subid s_up] in Hv. nil_facts.
+    cbn [submitted] in Hsub.
+    rewrite is_ok_dynamic.
+    2:{ intros _. split; [reflexivity|split; [rewrite spec_remaining_res; unfold VLI_MAX in *; cbn [res_of] in *; lia|]].
+        cbn. destruct (s_subid p); [split_and; lia|exact I]. }
+    cbn [static_spec dyn_spec]. split; [unfold subscribe_static, subid_static | unfold subscribe_dyn, check_size_spec; cbn [s_pid s_subs]];
+    conj_goal; try assumption; try (rewrite Hsub; reflexivity).
+    apply forallb_forall. intros x Hx.
+    match goal with H : flat_map _ _ = [] |- _ => pose proof (flat_map_nil _ _ H x Hx) as Hx' end.
+    unfold subscription_rules in Hx'. nil_facts. unfold filter_dyn, no_local_set. conj_goal; try assumption.
+    destruct (spec_shared_filter (sub_filter x)), (st_shared_subscriptions_available st), (sub_no_local x); cbn in *; congruence.
+  - (* UNSUBSCRIBE *)
+    cbn [violations res_of] in Hv. unfold unsubscribe_rules, size_rules in Hv. cbn [u_pid u_filters u_up] in Hv. nil_facts.
+    cbn [submitted] in Hsub. cbn [unsub_overstrict] in Hov.
+    rewrite is_ok_dynamic.
+    2:{ intros _. split; [reflexivity|split; [rewrite spec_remaining_res; unfold VLI_MAX in *; cbn [res_of] in *; lia|exact I]]. }
+    cbn [static_spec dyn_spec]. split; [unfold unsubscribe_static | unfold unsubscribe_dyn, check_size_spec; cbn [u_pid u_filters]];
+    conj_goal; try assumption; try (rewrite Hsub; reflexivity).
+    apply forallb_forall. intros x Hx.
+    match goal with H : flat_map _ _ = [] |- _ => pose proof (flat_map_nil _ _ H x Hx) as Hx' end.
+    unfold unsubscribe_filter_rules in Hx'. nil_facts.
+    assert (Ho := Hov). rewrite <- negb_true_iff, negb_existsb in Ho. rewrite forallb_forall in Ho. specialize (Ho x Hx).
+    unfold filter_dyn, no_local_set. conj_goal; try assumption;
+    destruct (spec_shared_filter x), (st_shared_subscriptions_available st), (filter_has_wildcard x), (st_wildcard_subscriptions_available st);
+      cbn in *; congruence.
+  - (* PINGREQ *) split; reflexivity.
+  - (* DISCONNECT *)
+    cbn [violations res_of] in Hv. unfold disconnect_rules, size_rules in Hv. nil_facts. split_and.
+    rewrite is_ok_dynamic.
+    2:{ intros _. split; [reflexivity|split; [rewrite spec_remaining_res; unfold VLI_MAX in *; cbn [res_of] in *; lia|exact I]]. }
+    cbn [static_spec dyn_spec]. split; [unfold disconnect_static | unfold disconnect_dyn, check_size_spec, sei_dyn];
+    conj_goal; assumption.
+  - (* AUTH *)
+    cbn [violations res_of] in Hv. unfold auth_rules, size_rules in Hv. nil_facts. split_and.
+    rewrite is_ok_dynamic.
+    2:{ intros _. split; [reflexivity|split; [rewrite spec_remaining_res; unfold VLI_MAX in *; cbn [res_of] in *; lia|exact I]]. }
+    cbn [static_spec dyn_spec]. split; [unfold auth_static, is_none | unfold auth_dyn, check_size_spec];
+    conj_goal; try assumption. destruct (au_method p); [reflexivity|discriminate].
 Qed.
